@@ -91,14 +91,22 @@ def prettyDiff (expected received name : Text) (line : Nat) : Text :=
 def shouldPrintHighlights (colour : Bool) (a b : Text) : Bool :=
   colour && a ≠ [] && b ≠ [] && isSingleline a && isSingleline b
 
-/-- Is the report of `prettyDiff` non-empty?  With colours on and a single-line pair the
+/-- Is the report of `prettyDiff` non-empty?  With colours on and a single-line pair the inline
 verdict belongs to diffmatchpatch: `dmpSingleEqual e r` says that
 `DiffCleanupSemantic(DiffMain(e, r))` is one Equal chunk, in which case `singlelineDiff`
-returns "" and so does `prettyDiff` (snaps/diff.go:150-153). -/
-def prettyDiffNonEmpty (colour : Bool) (dmpSingleEqual : Text → Text → Bool)
+returns "".  Whether `prettyDiff` then falls back to the line rows of `getUnifiedDiff` (and
+whether `getUnifiedDiff` itself falls back for a Replace of single lines) is read from the
+source: `fallsBack` is instantiated with `Generated.prettyDiffFallsBack &&
+Generated.unifiedDiffFallsBack` (both false on the originally pinned tree: known defect D3). -/
+def prettyDiffNonEmpty (colour : Bool) (fallsBack : Bool) (dmpSingleEqual : Text → Text → Bool)
     (expected received : Text) : Bool :=
   if expected = received then false
-  else if shouldPrintHighlights colour expected received then !(dmpSingleEqual expected received)
+  else if shouldPrintHighlights colour expected received && !fallsBack then
+    !(dmpSingleEqual expected received)
   else (getUnifiedDiff expected received).text ≠ []
+
+/-- the instance for the current source -/
+def prettyDiffNonEmptyNow (colour : Bool) (dmp : Text → Text → Bool) (e r : Text) : Bool :=
+  prettyDiffNonEmpty colour (Generated.prettyDiffFallsBack && Generated.unifiedDiffFallsBack) dmp e r
 
 end GoSnaps
